@@ -149,6 +149,18 @@ pub fn search(seed: u64, n: u64) {
         let vary_distance = unit * 10f64.powf(rng.r(-1.6, -0.4));
         check_vary(&mut stats, &w, class, vary_distance, vary_distance * rng.r(0.01, 0.25), factors, rng.b());
     }
+    // long curves walked with thousands of small steps and a tight tolerance (own stream): coordinates up to 1e5, 5000 .. 30000 sections,
+    // tolerance 1% of the step - the curve's speed times 1e-6 is then above the tolerance, so the step has to be corrected every time
+    let mut rng_l = Rng(seed ^ 0x10C6C15);
+    for _ in 0..(3 + n / 1000) {
+        let class = ["arch", "s_curve", "random"][rng_l.i(3) as usize];
+        let mut w = gen_class(&mut rng_l, class);
+        let k = 10f64.powf(rng_l.r(2.5, 3.1));
+        for p in w.iter_mut() { *p = *p * k; }
+        let length = polyline_length(&w, 2000);
+        let distance = length / rng_l.r(5000.0, 30000.0);
+        check_even(&mut stats, &w, "long_curve_small_steps", distance, distance * 0.01, length);
+    }
     stats.print("C15", "search");
     finish();
 }
